@@ -30,7 +30,7 @@ func vpIndexOf(l []string, v string) int {
 // ids. Ghost open-set per session.
 func vpH_C18_quota() {
 	n := vpInt("N")
-	vpAssume(n >= 1)
+	vpAssume(n >= 1 && n <= 1<<20) // the session state pre-sizes a map with N+1 buckets
 	base := newSimpleMaxSubscriptionsMiddlewareBase(n)
 	var ctxs [2]context.Context
 	for i := range ctxs {
